@@ -70,15 +70,25 @@ def resolve(name, params, d, rng):
   """Replace tokens by arrays."""
   out = dict(params)
   k = out.get('n_components') or d
+  def layout(A):
+    # array-valued options in C order, Fortran order or as a strided view
+    r = rng.randint(3)
+    if r == 1:
+      return np.asfortranarray(A)
+    if r == 2:
+      big = np.zeros((A.shape[0], 2 * A.shape[1]))
+      big[:, ::2] = A
+      return big[:, ::2]
+    return A
   for key, val in list(out.items()):
     if val == '@spd':
-      out[key] = D.spd_matrix(rng, d, cond=20.0)
+      out[key] = layout(D.spd_matrix(rng, d, cond=20.0))
     elif val == '@randn':
-      out[key] = rng.randn(k, d)
+      out[key] = layout(rng.randn(k, d))
     elif val == '@basis':
       nb = out.get('n_basis') or 3 * d
       B = rng.randn(nb, d)
-      out[key] = B / np.linalg.norm(B, axis=1, keepdims=True)
+      out[key] = layout(B / np.linalg.norm(B, axis=1, keepdims=True))
     elif val == 'inf':
       out[key] = np.inf
   return out
